@@ -142,10 +142,10 @@ func c20B64(r *h.Result, rng *h.Rng, n int) error {
 		}
 		out, err := base64.StdEncoding.DecodeString(string(s))
 		ops = append(ops, "c20b64 "+h.Hex(s))
-		impl = append(impl, fmt.Sprintf("%s %s", h.Hex(out), b01(err != nil)))
+		impl = append(impl, fmt.Sprintf("%s %s", h.Hex(out), c20b01(err != nil)))
 		outS, errS := base64.StdEncoding.Strict().DecodeString(string(s))
 		ops = append(ops, "c20b64s "+h.Hex(s))
-		impl = append(impl, fmt.Sprintf("%s %s", h.Hex(outS), b01(errS != nil)))
+		impl = append(impl, fmt.Sprintf("%s %s", h.Hex(outS), c20b01(errS != nil)))
 		raw := rng.Bytes(10)
 		ops = append(ops, "c20enc "+h.Hex(raw))
 		impl = append(impl, h.Hex([]byte(base64.StdEncoding.EncodeToString(raw))))
@@ -162,7 +162,7 @@ func c20B64(r *h.Result, rng *h.Rng, n int) error {
 	return r.Compare("b64", ops, impl, nil)
 }
 
-func b01(b bool) string {
+func c20b01(b bool) string {
 	if b {
 		return "1"
 	}
@@ -310,7 +310,7 @@ func c20RunAuth(login, pass string, hdr *string) (status int, www bool, reached 
 func c20AuthCase(r *h.Result, login, pass string, hd c20Hdr, ops, impl *[]string, cases *[]any) {
 	status, www, reached, body := c20RunAuth(login, pass, hd.val)
 	*ops = append(*ops, fmt.Sprintf("c20auth %s %s %s", h.Hex([]byte(login)), h.Hex([]byte(pass)), c20hexOpt(hd.val)))
-	*impl = append(*impl, fmt.Sprintf("%d www=%s reached=%s body=%s", status, b01(www), b01(reached), h.Hex(body)))
+	*impl = append(*impl, fmt.Sprintf("%d www=%s reached=%s body=%s", status, c20b01(www), c20b01(reached), h.Hex(body)))
 	rep := map[string]any{"stream": "auth", "login_hex": h.Hex([]byte(login)), "pass_hex": h.Hex([]byte(pass)), "header_hex": c20hexOpt(hd.val), "class": hd.class,
 		"status": status, "handler_reached": reached}
 	*cases = append(*cases, rep)
@@ -501,8 +501,8 @@ func c20Mw(r *h.Result, rng *h.Rng, n int) error {
 			opstr = "-"
 		}
 		ops = append(ops, fmt.Sprintf("c20mw %s %s %s", orDash(mws), h.Hex([]byte(ae)), opstr))
-		impl = append(impl, fmt.Sprintf("%d ce=%s cl=%s cors=%s x=%s body=%s reached=%s", res.StatusCode, orDash(res.Header.Get("Content-Encoding")), b01(hasCL),
-			orDash(res.Header.Get("Access-Control-Allow-Origin")), orDash(res.Header.Get("X-Test")), c20CanonBody(res, rec.Body.Bytes()), b01(reached)))
+		impl = append(impl, fmt.Sprintf("%d ce=%s cl=%s cors=%s x=%s body=%s reached=%s", res.StatusCode, orDash(res.Header.Get("Content-Encoding")), c20b01(hasCL),
+			orDash(res.Header.Get("Access-Control-Allow-Origin")), orDash(res.Header.Get("X-Test")), c20CanonBody(res, rec.Body.Bytes()), c20b01(reached)))
 		// oracle: the wrappers never change the status the handler chose
 		plain := httptest.NewRecorder()
 		dummy := false
@@ -730,9 +730,9 @@ func (q *c20Req) op() string {
 
 func c20Answer(status, marker int, hd http.Header) string {
 	if marker >= 0 {
-		return fmt.Sprintf("reached %d cors=%s", marker, b01(hd.Get("Access-Control-Allow-Origin") != ""))
+		return fmt.Sprintf("reached %d cors=%s", marker, c20b01(hd.Get("Access-Control-Allow-Origin") != ""))
 	}
-	return fmt.Sprintf("%d ce=%s cors=%s www=%s", status, b01(hd.Get("Content-Encoding") != ""), b01(hd.Get("Access-Control-Allow-Origin") != ""), b01(hd.Get("WWW-Authenticate") != ""))
+	return fmt.Sprintf("%d ce=%s cors=%s www=%s", status, c20b01(hd.Get("Content-Encoding") != ""), c20b01(hd.Get("Access-Control-Allow-Origin") != ""), c20b01(hd.Get("WWW-Authenticate") != ""))
 }
 
 // judge: the oracle on one served request. registered = the request targets a registered route and method.
@@ -782,7 +782,7 @@ func c20Router_(r *h.Result, rng *h.Rng, tier string) error {
 			var parts []string
 			for _, x := range rt.routes {
 				ms := append([]string{}, x.methods...)
-				parts = append(parts, fmt.Sprintf("%s|%s|%s", x.tpl, strings.Join(ms, ","), b01(x.prefix)))
+				parts = append(parts, fmt.Sprintf("%s|%s|%s", x.tpl, strings.Join(ms, ","), c20b01(x.prefix)))
 			}
 			if err := r.Compare("table", ops, []string{strings.Join(parts, ";")}, nil); err != nil {
 				return err
